@@ -1,6 +1,6 @@
 #!/bin/bash
 # runs the repository's pinned baseline (guard off) and checks the 79 stable tests still pass
-cd /repo && /venv/bin/python -m pytest -ra -q -p no:cacheprovider --timeout=900 --continue-on-collection-errors --junitxml=/tmp/gt_baseline.junit.xml > /tmp/gt_baseline.log 2>&1
+cd "${VERIF_REPO:-/repo}" && /venv/bin/python -m pytest -ra -q -p no:cacheprovider --timeout=900 --continue-on-collection-errors --junitxml=/tmp/gt_baseline.junit.xml > /tmp/gt_baseline.log 2>&1
 /venv/bin/python - <<'PY'
 import json, xml.etree.ElementTree as ET, sys
 base = json.load(open('/root/.vp/BASELINE.json'))
